@@ -177,7 +177,7 @@ class SymStr(str):
         for t, h in ex.hash_registry:
             if t is self:
                 return h
-            if len(t.items) == len(self.items) and fork(self.eq_expr(t)):
+            if isinstance(t, SymStr) and len(t.items) == len(self.items) and fork(self.eq_expr(t)):
                 return h
         ex.hash_counter += 1
         h = 0x5EED0000 + ex.hash_counter
@@ -414,6 +414,34 @@ class SymStr(str):
             else:
                 i += 1
         out.append(SymStr(self.items[start:]))
+        return out
+
+    _LINE_BREAKS = [(0x0A, 0x0D), (0x1C, 0x1E), (0x85, 0x85), (0x2028, 0x2029)]      # \n \v \f \r, FS GS RS, NEL, LS PS
+
+    def splitlines(self, keepends=False):
+        out, cur_items, i, n = [], [], 0, len(self.items)
+        while i < n:
+            it = self.items[i]
+            if isinstance(it, str):
+                brk = it in "\n\r\x0b\x0c\x1c\x1d\x1e\x85\u2028\u2029"
+            else:
+                brk = fork(in_ranges(it, SymStr._LINE_BREAKS))
+            if not brk:
+                cur_items.append(it)
+                i += 1
+                continue
+            end = [it]
+            is_cr = (it == "\r") if isinstance(it, str) else fork(it == 13)
+            if is_cr and i + 1 < n:
+                nxt = self.items[i + 1]
+                if (nxt == "\n") if isinstance(nxt, str) else fork(nxt == 10):
+                    end.append(nxt)
+                    i += 1
+            out.append(SymStr(cur_items + (end if keepends else [])))
+            cur_items = []
+            i += 1
+        if cur_items:
+            out.append(SymStr(cur_items))
         return out
 
     def replace(self, old, new, count=-1):
